@@ -411,7 +411,7 @@ func buildPNG(rng *rand.Rand, o pngOpt) *mfile {
 		b = append(b, pngChunk("PLTE", randBytes(rng, 3*(1+rng.Intn(n))))...)
 	}
 	idatStart := len(b)
-	b = append(b, pngChunk("IDAT", randBytes(rng, o.body))...)
+	b = append(b, pngChunk("IDAT", bodyBytes(rng, o.body))...)
 	if !iccDone {
 		end = idatStart + 8
 	}
@@ -642,7 +642,7 @@ func buildJPEG(rng *rand.Rand, o jpegOpt) *mfile {
 	sosHdr = append(sosHdr, 0, 63, 0)
 	b = append(b, jpegSeg(0xda, sosHdr)...)
 	endSOS := len(b)
-	body := randBytes(rng, o.body)
+	body := bodyBytes(rng, o.body)
 	for i := range body {
 		if body[i] == 0xff {
 			body[i] = 0xfe
@@ -691,6 +691,32 @@ func stdlibJPEG(rng *rand.Rand, w, h int, gray bool) *mfile {
 	return f
 }
 
+// pixel-data payloads: random bytes, or (bodyFill) bytes drawn from a restricted alphabet so that loaders
+// which scan the payload for a particular value behave differently: "noff" = random without 0xFF,
+// "zero" = all zero, "ff" = all 0xFF
+var bodyFill = ""
+
+func bodyBytes(rng *rand.Rand, n int) []byte {
+	b := randBytes(rng, n)
+	switch bodyFill {
+	case "noff":
+		for i := range b {
+			if b[i] == 0xff {
+				b[i] = 0x7f
+			}
+		}
+	case "zero":
+		for i := range b {
+			b[i] = 0
+		}
+	case "ff":
+		for i := range b {
+			b[i] = 0xff
+		}
+	}
+	return b
+}
+
 // ---------- WebP builder ----------
 
 func riffChunk(typ string, data []byte) []byte {
@@ -723,14 +749,14 @@ func buildWebP(rng *rand.Rand, o webpOpt) *mfile {
 		hdr := []byte{0x10 | byte(rng.Intn(8))<<1&0x0e, byte(rng.Intn(256)), byte(rng.Intn(256)), 0x9d, 0x01, 0x2a}
 		hdr[0] &^= 1
 		hdr = append(hdr, byte(o.w), byte(o.w>>8)&0x3f|o.scale<<6, byte(o.h), byte(o.h>>8)&0x3f|o.scale<<6)
-		data := append(hdr, randBytes(rng, o.body)...)
+		data := append(hdr, bodyBytes(rng, o.body)...)
 		payload = riffChunk("VP8 ", data)
 		f.End = 12 + 8 + 10
 	case "vp8l":
 		w1, h1 := o.w-1, o.h-1
 		bits := uint32(w1) | uint32(h1)<<14 | uint32(rng.Intn(2))<<28 // alpha bit, version 0
 		data := append([]byte{0x2f}, le32(bits)...)
-		data = append(data, randBytes(rng, o.body)...)
+		data = append(data, bodyBytes(rng, o.body)...)
 		payload = riffChunk("VP8L", data)
 		f.End = 12 + 8 + 5
 	case "vp8x":
@@ -781,7 +807,7 @@ func buildWebP(rng *rand.Rand, o webpOpt) *mfile {
 		if o.w <= 16384 && o.h <= 16384 {
 			bits := uint32(o.w-1) | uint32(o.h-1)<<14
 			data := append([]byte{0x2f}, le32(bits)...)
-			payload = append(payload, riffChunk("VP8L", append(data, randBytes(rng, o.body)...))...)
+			payload = append(payload, riffChunk("VP8L", append(data, bodyBytes(rng, o.body)...))...)
 		} else {
 			f.Decodable = false
 			payload = append(payload, riffChunk("VP8L", randBytes(rng, o.body+5))...)
